@@ -61,7 +61,7 @@ pub fn conv(data: &[u8]) -> c08::Case {
 /// C11 — windowed RMS histories
 pub fn rms(data: &[u8]) -> c11_core::Case {
     let mut u = Unstructured::new(data);
-    let kind: Kind = c11_core::KINDS[idx(&mut u, 7)];
+    let kind: Kind = c11_core::KINDS[idx(&mut u, 9)];
     let channels = [1usize, 2, 5][idx(&mut u, 3)];
     let n = 1 + idx(&mut u, 64);
     let exact = flag(&mut u);
@@ -97,7 +97,7 @@ pub fn osc(data: &[u8]) -> c17::OscCase {
     let mut u = Unstructured::new(data);
     let exact = flag(&mut u);
     let rate = if exact {
-        2f64.powi(idx(&mut u, 25) as i32 - 4)
+        if flag(&mut u) { 2f64.powi(idx(&mut u, 25) as i32 - 4) } else { [3.0, 49.0, 98.0, 441.0, 44100.0, 48000.0, 12544.0, 6.125][idx(&mut u, 8)] }
     } else {
         [44100.0, 48000.0, 1.0, 1e-3, 1e9, 96000.0, 0.5, 22050.0, 3.0, 1e5][idx(&mut u, 10)]
     };
